@@ -193,9 +193,25 @@ class NativeUnit(Unit):
         return out
 
 
+def _printable(x):
+    """`x` with every int Python refuses to print (more than 4300 digits) replaced by a description, so that a case holding one can be reported."""
+    if isinstance(x, int) and not isinstance(x, bool) and x.bit_length() > 10000: return "<int of %d bits, %s>" % (x.bit_length(), "negative" if x < 0 else "positive")
+    if isinstance(x, dict): return {_printable(k): _printable(v) for k, v in x.items()}
+    if isinstance(x, (list, tuple)): return type(x)(_printable(v) for v in x) if type(x) in (list, tuple) else x
+    return x
+
+
+def _printable_description(describe):
+    def described(c):
+        try: return _printable(describe(c))
+        except ValueError: return _printable(describe(_printable(c)))
+    return described
+
+
 def sweep(name, cases, check, kind="bounded", bound="", describe=repr, function=None, props=None, max_fail=1, unit=None):
     """Run `check(case)` over `cases`; returns one Result (PASSED with the count, or FAILED with the first failing case)."""
     t0 = time.time(); n = 0; first_bad = None
+    describe = _printable_description(describe)
     for c in cases:
         n += 1
         try:
